@@ -230,6 +230,43 @@ def run_case(ctx, case):
                                     ctx.violation('attribute-removed|%s|%d.%d' % ((nm,) + v),
                                                   '%s (removed from KMIP %d.%d) reported under KMIP %d.%d'
                                                   % ((nm,) + rem + v), None)
+                # attributes asked for by name (the gate must hold for explicit requests too)
+                all_names = [a.value for a in A]
+                for o in objs[:4]:
+                    for v in SUPPORTED:
+                        for nm in all_names:
+                            added = ATTR_ADDED.get(nm, (1, 0))
+                            rem = ATTR_REMOVED.get(nm)
+                            gated = added > v or (rem and v >= rem)
+                            if not gated and nm not in ('Operation Policy Name', 'Sensitive', 'Fresh', 'Name'):
+                                continue
+                            try:
+                                r = srv.send([op_get_attributes(o.uid, [nm, 'Object Type'])], ident, v)
+                            except Exception:
+                                ctx.count('named_attribute_request_not_encodable')
+                                continue
+                            ctx.ev()
+                            ctx.count('named_attribute_requests')
+                            ctx.cell('attr-named', nm, '%d.%d' % v, 'gated' if gated else 'open',
+                                     'raised' if r.error is not None else r.brief()[0][0])
+                            if not gated:
+                                continue
+                            if r.error is not None:
+                                ctx.violation('attribute-by-name|%s|%d.%d|%s' % ((nm,) + v + (type(r.error).__name__,)),
+                                              'GetAttributes naming %s under KMIP %d.%d (where it is not defined) breaks the '
+                                              'response: %s: %s' % ((nm,) + v + (type(r.error).__name__, str(r.error)[:120])), None)
+                                continue
+                            if r.ok():
+                                got = [it[2] for _, it in T.walk(r.payload()) if it[0] == 0x42000A and it[1] == T.TEXT]
+                                for k in T.kids(r.payload(), 0x420125):
+                                    for x in k[2]:
+                                        try:
+                                            got.append(E.convert_attribute_tag_to_name(E.Tags(x[0])))
+                                        except Exception:
+                                            pass
+                                if nm in got:
+                                    ctx.violation('attribute-by-name|%s|%d.%d|reported' % ((nm,) + v),
+                                                  '%s reported under KMIP %d.%d when asked for by name' % ((nm,) + v), None)
                 # attributes accepted
                 for v in SUPPORTED:
                     if v < (1, 4):
